@@ -444,7 +444,9 @@ func wkbEncHandler(raw json.RawMessage) map[string]any {
 		wkbcommon.MaxGeometryElements = [4]int{0, 1 << 16, 1 << 16, 1 << 16}
 		defer func() { wkbcommon.MaxGeometryElements = [4]int{0, -1, -1, -1} }()
 	}
+	defer func() { obs["overwritten"] = drainOverwritten() }()
 	b, err := marshalFlavor(g, order, c.Flavor)
+	retain("Marshal/"+c.Flavor, b)
 	if err != nil {
 		enc["err"] = err.Error()
 		// Marshal refuses the geometry: what the other encoders (stream, hex, Value of a wrapper) make of it
@@ -658,6 +660,7 @@ func directValueObs(g geom.T, flavor string) []any {
 		if ev, msg := call(func() {
 			v, err := w.Value()
 			if vb, isb := v.([]byte); isb && err == nil {
+				retain("Value/"+flavor, vb)
 				e["ok"], e["val"] = true, byteInts(vb)
 			}
 		}); ev != "ok" {
